@@ -21,6 +21,8 @@ EXEMPT_RETURN = {"sempler.utils.cartesian": "returns its output buffer",
                  "sempler.utils.matrix_block": "index kind decided by the caller; judged at its call sites"}
 
 
+SCOPE_MODULES = {"sempler.lganm", "sempler.anm", "sempler.normal_distribution", "sempler.utils", "sempler.generators", "sempler.semi",
+                 "sempler.noise", "sempler.functions", "sempler"}
 MODEL_CLASSES = {"LGANM", "ANM", "NormalDistribution", "BayesianNetwork", "DRFNet"}
 
 
@@ -73,7 +75,12 @@ def run(prog, rep, tier):
     # entry points: everything a user can call.  Private helpers (leading underscore) are analysed inside their
     # callers (the analysis is interprocedural), where it is known what they are handed
     called = set()
-    funcs = [f for f in prog.funcs.values() if f.module.name.startswith("sempler.") and f.module.name != "sempler.plot"
+    # the library as the property knows it; a module added later is reported in the notes, not judged
+    new_mods = sorted({f.module.name for f in prog.funcs.values() if f.module.name.startswith("sempler.") and f.module.name not in SCOPE_MODULES
+                       and f.module.name != "sempler.plot" and not f.module.name.startswith("sempler.test")})
+    if new_mods:
+        rep.notes.append("modules outside the scope the property was stated for (not judged): %s" % ", ".join(new_mods))
+    funcs = [f for f in prog.funcs.values() if f.module.name in SCOPE_MODULES
              and not (f.name.startswith("_") and not f.name.startswith("__") and f.qname not in ("sempler.semi._bootstrap", "sempler.lganm._parse_interventions"))]
     if tier == "thorough":
         funcs += [f for f in prog.funcs.values() if f.module.name.startswith("drf")]
@@ -141,7 +148,7 @@ def run(prog, rep, tier):
             deep = {l for l in OW.deep_labels(summ.ret) if isinstance(l, tuple) and OW.strip_maybe(l)[0] in ("P", "S", "G")}
             bad = {l for l in (OW.caller_owned(top) | deep) if OW.strip_maybe(l)[0] in ("P", "S", "D", "G") or l in OW.caller_owned(top)}
             if isinstance(summ.ret, OW.ObjV) and summ.ret.tag == "self":
-                bad = {("S", "<self>")}
+                bad = {("S", "<self>")} if is_model_class(prog, f) else set()
             ml = mutable_like_params(f)
             skipped = {l for l in bad if OW.strip_maybe(l)[0] in ("P", "PE") and l[1] not in ml}
             if skipped:
